@@ -7,8 +7,12 @@ from . import symx
 class Obligation:
     def __init__(self, name, harness, env=None, bounds=None, stubs=(), assumes=(), leverage="inputs",
                  max_paths=20000, path_wall_s=20.0, total_wall_s=None, query_timeout_ms=20000,
-                 witness_every=1, replay=None, expect_labels=None, conc_env=None, kind="symx", fast_fp=False):
+                 witness_every=1, replay=None, expect_labels=None, conc_env=None, kind="symx", fast_fp=False,
+                 witness_violations=False):
         self.fast_fp = fast_fp
+        # a witness replay that fails an assertion the symbolic run passed is, by construction, a reproduced violation of the
+        # oracle on the real build (used where part of the code is only reachable concretely, e.g. the DSL's character lexer)
+        self.witness_violations = witness_violations
         self.name = name
         self.harness = harness          # harness(ex) -> observation
         self.env = env                  # context-manager factory for symbolic runs (environment models on)
@@ -111,7 +115,15 @@ def run_obligation(ob, tier, seed):
             sym_failed = sorted({v["label"] for v in ex.path_violations})
             # a path whose checks all passed symbolically must pass concretely too
             extra = [l for l in failed if l not in sym_failed]
-            if predicted != got or extra:
+            if extra and ob.witness_violations:
+                for l in extra:
+                    key = (l, json.dumps(jsonable(values), sort_keys=True))
+                    if key not in seen_viol:
+                        seen_viol.add(key)
+                        out["violations"].append({"label": l, "values": jsonable(values), "reproduced": True,
+                                                  "detail": "found by the concrete replay of a path witness on the real build"})
+                out["witnesses"] += 1
+            elif predicted != got or extra:
                 out["harness_errors"].append(
                     "witness mismatch in %s: values=%r predicted=%r concrete=%r unexpected-failed=%r"
                     % (ob.name, values, predicted, got, extra))
